@@ -105,6 +105,16 @@ pub fn judge(c: &Case) -> Verdict {
             let _ = catch(|| parse(&format!("{k} {junk}")).map(|_| ()).map_err(|e| e.to_string()));
         }
     }
+    // a third quarter is preceded by its own prefixes, cut at every blank (some end inside a quoted
+    // string) and parsed in increasing length: what an earlier call saw of the same text must not matter
+    if stable_hash(&c.input) % 4 == 2 {
+        let cuts: Vec<usize> = c.input.char_indices().filter(|(_, ch)| *ch == ' ' || *ch == '\t' || *ch == '\n').map(|(i, _)| i).collect();
+        for i in cuts {
+            if i > 0 {
+                let _ = catch(|| parse(&c.input[..i]).map(|_| ()).map_err(|e| e.to_string()));
+            }
+        }
+    }
     // another quarter is preceded by accepted inputs, among them ones that earn a warning
     if stable_hash(&c.input) % 4 == 1 {
         let ok = ["-name core -threads 4", "-true -depth", "-name x -o ( -depth -threads 8 ) -print", "-threads 2 -name y", "-uid 1 -printf '%p\\n'"];
@@ -191,8 +201,21 @@ pub fn build(kw: &str, lang: Lang, missing: bool, second: bool, bad: usize, pre:
     };
     // a missing argument is only missing at the end of the input or before ')'
     let suffix = if missing { ["", "", " ", "\n"][suf % 4] } else { SUFFIXES[suf % SUFFIXES.len()] };
-    let input = if paren { format!("{prefix}( {body}{suffix} )") } else { format!("{prefix}{body}{suffix}") };
-    Some(Case { kind: kind.into(), input, keyword: Some(kw.to_string()), word, first: pre % PREFIXES.len() == 0 && !paren })
+    let mut input = if paren { format!("{prefix}( {body}{suffix} )") } else { format!("{prefix}{body}{suffix}") };
+    let mut first = pre % PREFIXES.len() == 0 && !paren;
+    // decoys: the keyword glued to the offending word occurs elsewhere in the input, as a plain string argument
+    if !missing && !word.contains(' ') && !word.contains('\'') {
+        match (bad / 4 + pre + suf) % 5 {
+            0 => {
+                input = format!("-name {kw}{word} {input}");
+                first = false;
+            }
+            1 if !paren => input = format!("{} -o -name '{kw}{word}'", input.trim_end()),
+            2 if !paren => input = format!("{} -fprint out{kw}{word}.txt", input.trim_end()),
+            _ => {}
+        }
+    }
+    Some(Case { kind: kind.into(), input, keyword: Some(kw.to_string()), word, first })
 }
 
 pub fn run(ctx: &Ctx) -> Report {
@@ -254,7 +277,7 @@ pub fn run(ctx: &Ctx) -> Report {
     total.merge(rnd);
     Report {
         stats: total,
-        rule: "every argument-taking keyword (tests, actions, options) with its argument missing (end of input or before ')'; also the second argument of -xattr-match/-fprintf) or replaced by a word invalid from its first character for that argument language (x, @1, ?, k5 for numbers/sizes/times; 1, Z for types; x, 9 for modes; -5 for unsigned), placed after 0..3 valid primaries and before 0..2 more, optionally inside parentheses; unknown words with no keyword prefix at random positions. Oracle on the Display text of the error: non-empty; contains the keyword; quotes the offending word in backquotes (an empty pair when missing); for unknown words quotes the word; every backquoted segment occurs in the input. A quarter of the cases are preceded on the same thread by rejected inputs of the same keyword, another quarter by accepted inputs including ones that earn a misplaced-option warning: the message must not depend on earlier calls. Non-trivial: the failing primary is not first, or the argument is missing. Distinct: by input.".into(),
+        rule: "every argument-taking keyword (tests, actions, options) with its argument missing (end of input or before ')'; also the second argument of -xattr-match/-fprintf) or replaced by a word invalid from its first character for that argument language (x, @1, ?, k5 for numbers/sizes/times; 1, Z for types; x, 9 for modes; -5 for unsigned), placed after 0..3 valid primaries and before 0..2 more, optionally inside parentheses; unknown words with no keyword prefix at random positions. Oracle on the Display text of the error: non-empty; contains the keyword; quotes the offending word in backquotes (an empty pair when missing); for unknown words quotes the word; every backquoted segment occurs in the input. A quarter of the cases are preceded on the same thread by rejected inputs of the same keyword, another quarter by accepted inputs including ones that earn a misplaced-option warning, a third quarter by every prefix of the input itself that ends at a blank (some end inside a quoted string): the message must not depend on earlier calls. In two cases out of five the keyword glued to the offending word also occurs elsewhere in the input as a plain string argument (decoy). Non-trivial: the failing primary is not first, or the argument is missing. Distinct: by input.".into(),
         assumptions: vec!["string-valued arguments accept any word, so only 'missing' applies to them; format strings are not used for 'invalid from the first character'".into()],
         exhaustive: false,
     }
